@@ -101,3 +101,44 @@ func vIsPow2(n uint64) bool {
 	}
 	return r
 }
+
+// a plain die written in a script, after other dice terms of the same program
+var vC05VMProgs = []struct {
+	src   string
+	first int   // draws consumed by the terms before the plain die(s)
+	fixed int64 // value of those terms when every draw is 0 (they are clamped or sorted below)
+}{
+	{"d20min20 + d(nn)", 1, 20},
+	{"d20max1; d(nn)", 1, 0},
+	{"d8min8 + d8min8 + d(nn)", 2, 16},
+	{"[d6max1, d(nn)][1]", 1, 0},
+	{"x = d4max1; y = d(nn); y", 1, 0},
+	{"d(nn)", 0, 0},
+}
+
+func init() {
+	vHarnesses["VH_C05_vm"] = VH_C05_vm
+}
+
+//vh:prop=C05 tiers=quick,thorough sigkeys=prog summaries=Roll:roll-contract solver=z3-new/int budget_s=600 bounds="a plain die d(nn) evaluated by the VM after other dice terms of the same program (terms clamped by min / max modifiers, in sums, statements, arrays, assignments), side count nn a 64-bit symbol in [1, 2^40], every generator output symbolic (Roll's contract, established by VH_C05_sampler): the die's value is exactly its own draw + 1 - no clamp, offset or state of an earlier term reaches it - so the script-level die inherits the sampler's uniformity"
+func VH_C05_vm() {
+	pr := vC05VMProgs[vChoice("prog", len(vC05VMProgs))]
+	nn := vInt64("nn")
+	vAssume(nn >= 1)
+	vAssume(nn <= 1<<40)
+	vm := vSeededVM()
+	vm.Attrs.Store("nn", NewIntVal(IntType(nn)))
+	err := vm.Run(pr.src)
+	vReach("ran")
+	vAssert(err == nil, "die-evaluates")
+	if err != nil {
+		return
+	}
+	vAssert(vDrawCount() == pr.first+1, "one-draw-per-die")
+	vAssert(vDrawsFrom(vm.RandSrc) == vDrawCount(), "draws-from-the-context-generator")
+	d := int64(vDraw(pr.first)) + 1
+	vAssert(vAnd(d >= 1, d <= nn), "die-in-range")
+	got, ok := vm.Ret.ReadInt()
+	vAssert(ok, "integer-result")
+	vAssert(int64(got) == pr.fixed+d, "script-die-is-its-own-draw-plus-1")
+}
